@@ -26,6 +26,9 @@ type RTPTransceiver struct {
 	currentRemoteDirection atomic.Value // RTPTransceiverDirection
 
 	codecs []RTPCodecParameters // User provided codecs via SetCodecPreferences
+	// codecsFromRemote is set when codecs were derived from the remote media section the
+	// transceiver was created for, not provided by the user.
+	codecsFromRemote bool
 
 	kind RTPCodecType
 
@@ -64,17 +67,19 @@ func (t *RTPTransceiver) SetCodecPreferences(codecs []RTPCodecParameters) error 
 	}
 
 	t.codecs = filterUnattachedRTX(codecs)
+	t.codecsFromRemote = false
 
 	return nil
 }
 
-// hasCodecPreferences reports whether codec preferences are set, by the user
-// or from the remote media section the transceiver was created for.
+// hasCodecPreferences reports whether the user set codec preferences. Codecs derived
+// from the remote media section the transceiver was created for do not count: a later
+// offer for the section may list fewer codecs.
 func (t *RTPTransceiver) hasCodecPreferences() bool {
 	t.mu.RLock()
 	defer t.mu.RUnlock()
 
-	return len(t.codecs) != 0
+	return len(t.codecs) != 0 && !t.codecsFromRemote
 }
 
 // getCodecs returns list of supported codecs.
@@ -198,7 +203,11 @@ func (t *RTPTransceiver) setCodecPreferencesFromRemoteDescription(media *sdp.Med
 			uniqueCodecs = append(uniqueCodecs, codec)
 		}
 	}
-	_ = t.SetCodecPreferences(uniqueCodecs)
+	if t.SetCodecPreferences(uniqueCodecs) == nil {
+		t.mu.Lock()
+		t.codecsFromRemote = true
+		t.mu.Unlock()
+	}
 }
 
 // Sender returns the RTPTransceiver's RTPSender if it has one.
